@@ -213,6 +213,17 @@ Theorem C15_collapse_to_base_boundary_keeps_wf2 `{Sig} : forall E n ks pe e ne c
 Proof. exact halfcell_to_base_boundary_wf. Qed.
 Print Assumptions C15_collapse_to_base_boundary_keeps_wf2.
 
+(** ... and the interior half-cell leaves a well-formed map: premises on the well-formed map before the call only. *)
+Theorem C15_collapse_to_base_inner_keeps_wf2 `{Sig} : forall E n ks pe e ne c w cnt w' cnt',
+  let q := beta w 2 ne in let p0 := beta w 0 q in let p1 := beta w 1 q in
+  wf2 n w -> pe < n ->
+  NoDup [pe; e; ne; q; p0; p1] -> ~ In 0 [pe; e; ne; q; p0; p1] ->
+  beta w 1 pe = e -> beta w 1 e = ne -> beta w 1 ne = pe -> beta w 2 e = 0 ->
+  run E (collapse_halfcell_to_base n ks pe e ne) c w cnt = (Done tt, w', cnt') ->
+  wf2 n w'.
+Proof. exact halfcell_to_base_inner_wf. Qed.
+Print Assumptions C15_collapse_to_base_inner_keeps_wf2.
+
 (** The two half-cell routines of the edge collapse -- the programs the four collapse theorems above are about -- are,
     verbatim, what tools/tr_kern.py regenerates from remeshing/collapse.rs on every run: an edit of either routine
     changes Map2/GenKern.v and this theorem stops compiling. *)
